@@ -222,6 +222,11 @@ class HTTPStream:
                         )
                         self.state = ASGIHTTPState.TRAILERS
                         break
+                else:
+                    # Without a response start there is nothing the
+                    # trailers could follow, and this client does not
+                    # accept them in place of one.
+                    raise UnexpectedMessageError(self.state, message["type"])
 
                 if not message.get("more_trailers", False):
                     await self._send_closed()
